@@ -1030,6 +1030,9 @@ impl ParserState {
         self.last_force_bytes_len = usize::MAX;
         self.lexer_stack_top_eos = false;
         self.rows_valid_end = self.num_rows();
+        // rows above the new top will be overwritten by later commits, so a cached
+        // mask keyed by (lexer state, row index) may describe a different history
+        self.bias_cache = None;
 
         self.assert_definitive();
 
